@@ -105,3 +105,37 @@ Theorem lock_order_sound_skel : forall (sk : skeleton) (A : fname -> list lock) 
   lock_order_check (prog_of sk) A rk = true ->
   forall ts c, reach (prog_of sk) (init (prog_of sk) ts) c -> ~ deadlocked c.
 Proof. intros sk A rk H. apply (lock_order_sound_prog (prog_of sk) A rk H). Qed.
+
+(* ---------- the skeleton of the code as it is now ---------- *)
+From PS Require Import Model.C18Corr.
+
+Lemma c18_skeleton_ok_now : c18_skeleton_ok = true.
+Proof. vm_compute. reflexivity. Qed.
+
+Lemma c18_current_no_deadlock :
+  forall ts c, reach c18_prog (init c18_prog ts) c -> ~ deadlocked c.
+Proof.
+  assert (H : lock_order_check c18_prog (lookupL c18_may_acquire) (rk_lookup c18_ranks) = true).
+  { pose proof c18_skeleton_ok_now as H. unfold c18_skeleton_ok in H.
+    apply andb_true_iff in H. destruct H as [_ H]. exact H. }
+  exact (lock_order_sound_prog c18_prog _ _ H).
+Qed.
+
+Lemma c18_tables_ok_now : c18_tables_ok = true.
+Proof. vm_compute. reflexivity. Qed.
+
+(* the hypotheses of lock_order_sound are satisfiable by a skeleton with nested locks, a callback and a goroutine:
+   f0: lock 0 { call f1 }; spawn f2      f1: lock 1 {}      f2: lock 1 { } (goroutine) *)
+Example lock_order_example :
+  exists (sk : skeleton) A rk,
+    lock_order_check (prog_of sk) A rk = true /\
+    exists c, reach (prog_of sk) (init (prog_of sk) [0%N; 0%N]) c /\ awaited c 0 = Some 1%N.
+Proof.
+  exists (mkSkeleton [(0, [(0,0); (2,0); (10,0); (7,2)]); (1, [(0,1); (1,1)]); (2, [(0,1); (2,1)])]%N [] [(0, [1])]%N [0]%N).
+  exists (lookupL [(0, [0; 1]); (1, [1]); (2, [1])]%N).
+  exists (rk_lookup [(0%N, 0%nat); (1%N, 1%nat)]).
+  split; [vm_compute; reflexivity|].
+  eexists. split.
+  - eapply run_reach_init with (sched := [0; 0]%nat). vm_compute. reflexivity.
+  - vm_compute. reflexivity.
+Qed.
